@@ -91,6 +91,8 @@ func (vc *VC) applyContract(con *Contract, key string, n int, args []SV, st *Sta
 	env.ownFn = false
 	env.fvBind = vc.curBind
 	vc.curBind = nil
+	env.fvTerms = vc.curTerms // captproj.go (x-c17)
+	vc.curTerms = nil
 	env.pkg = con.Pkg
 	for i, p := range con.Params {
 		env.vars[p] = args[i]
@@ -161,6 +163,7 @@ func (vc *VC) applyContract(con *Contract, key string, n int, args []SV, st *Sta
 	penv.local = false
 	penv.ownFn = false
 	penv.fvBind = env.fvBind
+	penv.fvTerms = env.fvTerms
 	penv.pkg = con.Pkg
 	penv.oldVars = env.vars
 	for k, v := range env.vars {
@@ -184,6 +187,14 @@ func (vc *VC) applyContract(con *Contract, key string, n int, args []SV, st *Sta
 		}
 	}
 	for _, e := range con.Ensures {
+		if penv.fvTerms != nil { // captproj.go (x-c17): a clause naming a captured variable that is not projectable is skipped
+			if g, ok := vc.tryEvalBool(penv, e.Expr); ok {
+				vc.assume(reach, g)
+			} else {
+				vc.eng.note("call of " + key + " through a struct field in " + vc.key + ": ensures clause `" + e.Text + "` not assumed (names a captured variable that is not known there)")
+			}
+			continue
+		}
 		vc.assume(reach, vc.evalBool(penv, e.Expr))
 	}
 	return res
